@@ -62,7 +62,7 @@ def mutate(rng, doc, version):
         k = rng.choice(["top-field", "el-field", "dup-el", "cycle", "self-signed", "dangling",
                         "target", "drop-el", "dup-name", "nonstring-name", "type", "grow",
                         "elements-kind", "retarget-any", "hex-resize", "hex-resize",
-                        "unicode-name"])
+                        "unicode-name", "root-named-element"])
         els = d.get("elements")
         ok_els = isinstance(els, list) and els and all(isinstance(e, dict) for e in els)
         if k == "top-field":
@@ -83,6 +83,17 @@ def mutate(rng, doc, version):
             else:
                 e[f] = v
             labels.append("el:%s" % f)
+        elif k == "root-named-element" and ok_els:
+            # an element carrying the reserved name of the root of trust (a file that also
+            # lists the root certificate; somebody's own root), signed by itself, by the
+            # root name or by another element
+            e = copy.deepcopy(rng.choice(els))
+            e["name"] = root_name
+            e["signed_by"] = rng.choice([root_name, root_name, rng.choice(els).get("name")])
+            els.insert(rng.randrange(len(els) + 1), e)
+            if rng.random() < 0.3 and isinstance(d.get("targets"), list):
+                d["targets"].append(root_name)
+            labels.append("root-named-element")
         elif k == "unicode-name" and ok_els:
             # a name (and the references to it) with characters outside ASCII: accented,
             # astral, NUL, a lone surrogate (valid JSON escape, not encodable as UTF-8)
@@ -185,7 +196,7 @@ def synthetic(rng):
     n = rng.randint(0, 12)
     version = rng.choice([1, 2, 1, 2, 3, "1", None])
     names = ["device", "attestation", "ui", "signer"] if version == 1 else \
-        ["quote", "attestation", "quoting_enclave", "platform_ca", "a", "b", "c"]
+        ["quote", "attestation", "quoting_enclave", "platform_ca", "a", "b", "c", "sgx_root"]
     root_name = "root" if version == 1 else "sgx_root"
     els = []
     for i in range(n):
